@@ -112,8 +112,10 @@ def build(variant: str = 'plain', quiet: bool = True) -> str:
         inc, suffix, torch_inc = _py_info()
         so = os.path.join(out, 'optree', '_C' + suffix)
         if not os.path.exists(so):
-            # prune stale builds of this variant
-            for d in glob.glob(os.path.join(bdir, f'{variant}-*')):
+            # prune stale builds of this variant (keep the 3 most recent: other checks, e.g. against a
+            # scratch copy selected with VERIF_REPO, may still be running from them)
+            old = sorted((d for d in glob.glob(os.path.join(bdir, f'{variant}-*')) if not d.endswith('.tmp')), key=os.path.getmtime)
+            for d in old[:-3]:
                 shutil.rmtree(d, ignore_errors=True)
             tmp = out + '.tmp'
             shutil.rmtree(tmp, ignore_errors=True)
